@@ -156,6 +156,8 @@ def _rand_slice(rng, n, allow_empty=True):
         start = a - n
     if b == n and rng.random() < 0.5:
         stop = None
+    elif b == n and rng.random() < 0.5:
+        stop = n + int(rng.integers(1, 7))       # a stop beyond the extent is clipped by numpy (matters for nested slices)
     elif b < n and rng.random() < 0.25:
         stop = b - n
     if step == 1 and rng.random() < 0.5:
